@@ -20,6 +20,7 @@ package datastore
 
 //@ func repoT.newMutationID
 //@   lockset
+//@   lockbalance
 //@   prop C12 C11
 //@   requires r != nil && r.mutCurID < r.mutSavedID && r.mutSavedID <= 0xFFFFFFFFFFFFFF00
 //@   requires manager != nil && manager.store != nil && !manager.readOnly
@@ -33,6 +34,7 @@ package datastore
 
 //@ func repoT.initMutationID
 //@   lockset
+//@   lockbalance
 //@   prop C12 C03 C11
 //@   requires r != nil && store != nil && mutationIDStart <= 0xFFFFFFFFFFFF0000
 //@   modifies r.mutCurID, r.mutSavedID
@@ -62,6 +64,7 @@ package datastore
 
 //@ func repoManager.putNewIDs
 //@   lockset
+//@   lockbalance
 //@   prop C12 C11
 //@   requires m != nil && (m.readOnly || m.store != nil)
 //@   modifies ghost pRepo, ghost pVer, ghost pInst
@@ -75,6 +78,7 @@ package datastore
 // while it still holds the write lock).
 //@ func repoManager.putNewIDsLocked
 //@   lockset
+//@   lockbalance
 //@   holds m.idMutex R
 //@   prop C12 C11
 //@   requires m != nil && (m.readOnly || m.store != nil)
@@ -102,6 +106,7 @@ package datastore
 
 //@ func repoManager.newInstanceID
 //@   lockset
+//@   lockbalance
 //@   prop C12 C06 C11
 //@   requires m != nil && (m.readOnly || m.store != nil)
 //@   modifies m.instanceID, ghost pRepo, ghost pVer, ghost pInst
@@ -117,6 +122,7 @@ package datastore
 
 //@ func repoManager.newRepoID
 //@   lockset
+//@   lockbalance
 //@   prop C12 C11
 //@   requires m != nil && (m.readOnly || m.store != nil)
 //@   modifies m.repoID, ghost pRepo, ghost pVer, ghost pInst
@@ -128,6 +134,7 @@ package datastore
 
 //@ func repoManager.newUUID
 //@   lockset
+//@   lockbalance
 //@   prop C12 C07 C11
 //@   requires m != nil && (m.readOnly || m.store != nil) && m.versionToUUID != nil && m.uuidToVersion != nil
 //@   modifies m.versionID, m.versionToUUID[*], m.uuidToVersion[*], ghost pRepo, ghost pVer, ghost pInst
@@ -142,6 +149,7 @@ package datastore
 
 //@ func repoManager.newVersionID
 //@   lockset
+//@   lockbalance
 //@   prop C12 C07 C11
 //@   requires m != nil && (m.readOnly || m.store != nil) && m.versionToUUID != nil && m.uuidToVersion != nil
 //@   modifies m.versionID, m.versionToUUID[*], m.uuidToVersion[*], ghost pRepo, ghost pVer, ghost pInst
@@ -201,6 +209,7 @@ package datastore
 
 //@ func repoManager.newRepo
 //@   lockset
+//@   lockbalance
 //@   prop C07 C04 C11
 //@   safety_off
 //@   calls_havoc
@@ -217,6 +226,7 @@ package datastore
 // one critical section of newVersionMutex (C11: at most one new child per branch).
 //@ func repoManager.newVersion
 //@   lockset
+//@   lockbalance
 //@   unguarded child
 //@   prop C07 C11
 //@   safety_off
@@ -233,6 +243,7 @@ package datastore
 
 //@ func repoManager.merge
 //@   lockset
+//@   lockbalance
 //@   unguarded child
 //@   prop C07 C11
 //@   safety_off
@@ -248,6 +259,7 @@ package datastore
 // its setting lie in one critical section of the node's mutex (C11: one of several concurrent commits wins).
 //@ func repoManager.commit
 //@   lockset
+//@   lockbalance
 //@   prop C07 C03 C11
 //@   safety_off
 //@   calls_havoc
@@ -319,6 +331,7 @@ package datastore
 //@ func repoManager.getBranchVersion
 //@   prop C11
 //@   lockset
+//@   lockbalance
 //@   inline
 //@   safety_off
 //@   calls_havoc
@@ -327,6 +340,7 @@ package datastore
 //@ func repoManager.deleteRepo
 //@   prop C11
 //@   lockset
+//@   lockbalance
 //@   inline
 //@   safety_off
 //@   calls_havoc
@@ -335,6 +349,7 @@ package datastore
 //@ func repoManager.hideBranch
 //@   prop C11
 //@   lockset
+//@   lockbalance
 //@   inline
 //@   safety_off
 //@   calls_havoc
@@ -343,6 +358,7 @@ package datastore
 //@ func repoManager.addRepo
 //@   prop C11
 //@   lockset
+//@   lockbalance
 //@   inline
 //@   safety_off
 //@   calls_havoc
@@ -351,6 +367,7 @@ package datastore
 //@ func repoT.MarshalJSON
 //@   prop C11
 //@   lockset
+//@   lockbalance
 //@   inline
 //@   safety_off
 //@   calls_havoc
@@ -359,6 +376,7 @@ package datastore
 //@ func nodeT.MarshalJSON
 //@   prop C11
 //@   lockset
+//@   lockbalance
 //@   inline
 //@   safety_off
 //@   calls_havoc
@@ -367,6 +385,7 @@ package datastore
 //@ func nodeT.GobEncode
 //@   prop C11
 //@   lockset
+//@   lockbalance
 //@   inline
 //@   safety_off
 //@   calls_havoc
@@ -375,6 +394,7 @@ package datastore
 //@ func nodeT.duplicate
 //@   prop C11
 //@   lockset
+//@   lockbalance
 //@   unguarded dup
 //@   safety_off
 //@   calls_havoc
@@ -383,6 +403,7 @@ package datastore
 //@ func repoManager.setNodeNote
 //@   prop C11
 //@   lockset
+//@   lockbalance
 //@   inline
 //@   safety_off
 //@   calls_havoc
@@ -391,6 +412,7 @@ package datastore
 //@ func repoManager.putCaches
 //@   prop C11
 //@   lockset
+//@   lockbalance
 //@   inline
 //@   safety_off
 //@   calls_havoc
@@ -399,6 +421,7 @@ package datastore
 //@ func repoManager.MarshalJSON
 //@   prop C11
 //@   lockset
+//@   lockbalance
 //@   inline
 //@   safety_off
 //@   calls_havoc
@@ -407,6 +430,7 @@ package datastore
 //@ func repoT.getMutationID
 //@   prop C11
 //@   lockset
+//@   lockbalance
 //@   inline
 //@   safety_off
 //@   calls_havoc
@@ -415,6 +439,7 @@ package datastore
 //@ func nodeT.addToLog
 //@   prop C11
 //@   lockset
+//@   lockbalance
 //@   inline
 //@   safety_off
 //@   calls_havoc
@@ -423,6 +448,7 @@ package datastore
 //@ func repoManager.versionFromUUID
 //@   prop C11
 //@   lockset
+//@   lockbalance
 //@   inline
 //@   safety_off
 //@   calls_havoc
@@ -431,6 +457,7 @@ package datastore
 //@ func repoManager.uuidFromVersion
 //@   prop C11
 //@   lockset
+//@   lockbalance
 //@   inline
 //@   safety_off
 //@   calls_havoc
@@ -439,6 +466,7 @@ package datastore
 //@ func repoManager.types
 //@   prop C11
 //@   lockset
+//@   lockbalance
 //@   inline
 //@   safety_off
 //@   calls_havoc
@@ -447,6 +475,7 @@ package datastore
 //@ func repoManager.saveRepoByVersion
 //@   prop C11
 //@   lockset
+//@   lockbalance
 //@   inline
 //@   safety_off
 //@   calls_havoc
@@ -455,6 +484,7 @@ package datastore
 //@ func repoManager.repoFromVersion
 //@   prop C11
 //@   lockset
+//@   lockbalance
 //@   inline
 //@   safety_off
 //@   calls_havoc
@@ -463,6 +493,7 @@ package datastore
 //@ func repoManager.matchingUUID
 //@   prop C11
 //@   lockset
+//@   lockbalance
 //@   inline
 //@   safety_off
 //@   calls_havoc
@@ -471,6 +502,7 @@ package datastore
 //@ func repoManager.getRepoRootVersion
 //@   prop C11
 //@   lockset
+//@   lockbalance
 //@   inline
 //@   safety_off
 //@   calls_havoc
@@ -479,6 +511,7 @@ package datastore
 //@ func repoManager.getNodeNote
 //@   prop C11
 //@   lockset
+//@   lockbalance
 //@   inline
 //@   safety_off
 //@   calls_havoc
@@ -487,6 +520,7 @@ package datastore
 //@ func repoManager.addToNodeLog
 //@   prop C11
 //@   lockset
+//@   lockbalance
 //@   inline
 //@   safety_off
 //@   calls_havoc
@@ -495,6 +529,7 @@ package datastore
 //@ func repoManager.repoFromUUID
 //@   prop C11
 //@   lockset
+//@   lockbalance
 //@   inline
 //@   safety_off
 //@   calls_havoc
